@@ -13,9 +13,18 @@ from .c12 import BOXES, MC_CFG, inbox, make_params
 
 
 def level_index(v, levels):
+    """position of a generated value in the supplied level list: numbers by exact numeric equality (no float round trip: 2**53 + 1 stays
+    what it is), categorical levels (strings) only against strings"""
     for i, lv in enumerate(levels):
-        if float(v) == float(lv):
-            return i
+        if isinstance(lv, str) or isinstance(v, str):
+            if isinstance(lv, str) and isinstance(v, str) and v == lv:
+                return i
+            continue
+        try:
+            if v == lv:
+                return i
+        except Exception:      # noqa
+            continue
     return None
 
 
@@ -58,6 +67,11 @@ class Factorial(Part):
             fine += [[1000], [3, 400], [32767 // 64, 2], [600, 2], [2, 2, 260], [33000]]
         for lv in fine:
             cases.append({"kind": "fullfact", "d": len(lv), "center": None, "levels": list(lv), "cseed": rng.randrange(1 << 30)})
+        # level lists whose values are of mixed kinds: a categorical level next to numbers, an integer beyond 2**53 next to floats
+        for values in ([['auto', 0.5, 1.0], [1.0, 2.0]], [[2 ** 53 + 1, 0.5], ['a', 'b', 'c']], [[0.5, 'off'], [3, 7.5, 2 ** 60]],
+                       [[1, 2.5, 'x'], ['lo', 'hi'], [10, 20]]):
+            cases.append({"kind": "fullfact", "d": len(values), "center": None, "levels": [len(v) for v in values], "values": values,
+                          "cseed": rng.randrange(1 << 30)})
         # generalized subset designs: level lists x reductions x complementary counts
         grid = [[2, 2], [3, 3], [3, 4], [4, 4], [2, 3, 4], [3, 3, 3], [5, 3], [2, 2, 2], [4, 6], [3, 4, 6], [2, 3, 5], [5, 5], [6, 6], [2, 2, 3, 3]]
         for levels in grid:
@@ -138,8 +152,8 @@ class Factorial(Part):
                 lists = [[p['bounds'][0], (p['bounds'][0] + p['bounds'][1]) / 2.0, p['bounds'][1]] if case["center"] else list(p['bounds'])
                          for p in lists_from]
             else:
-                lists = []
-                for p, cnt in zip(params, case["levels"]):
+                lists = [list(v) for v in case["values"]] if case.get("values") else []
+                for p, cnt in zip(params, [] if case.get("values") else case["levels"]):
                     lb, ub = p['bounds']
                     vals = sorted({lb + (ub - lb) * rng.random() for _ in range(cnt)})
                     while len(vals) < cnt:
